@@ -11,6 +11,15 @@ BASELINE = ("cd /repo && /venv/bin/python -m pytest -ra -q -p no:cacheprovider -
 
 # pid -> (category, text, design_ref, level_note, technique)
 CLAIMED = {
+ "C10": ("model_checking",
+         "spec/Automata.tla: big-step semantics of the framework (accept/process, limit resolution, delegate with repeat cycles, "
+         "greedy/terminal stopping, final sent <= ending check); MC_Automata evaluates 7 synthetic machine templates under every "
+         "limit and repeat count on every input of length <= 4 and checks `terminal completion => consumed <= limit'; each instance "
+         "is rebuilt from cpppo classes and must agree (limit, sent accounting against a counting iterator, exact repeat "
+         "count, success/failure and consumed count); every library parser wrapped in dfa(limit=L) for all L in 0..len+2 "
+         "over spec vectors + sentinels is checked by TLC (AutomataTrace) for LimitRespected and SentAccounting.",
+         "5/C10", "whole input available (end of input); a failing run may take one symbol beyond a limit before its final check fails",
+         "TLA+ semantics of the automata framework evaluated by TLC; synthetic machines rebuilt from cpppo classes replayed; library-machine runs validated by TLC"),
  "C11": ("model_checking",
          "spec/Regex.tla: Brzozowski derivatives and an independent direct-membership semantics, checked by TLC to agree on every "
          "expression of the bounded domain; TLC computes for every (expression, string) the longest viable prefix and acceptance; "
